@@ -109,6 +109,40 @@ func reuseSession(r *Rng, n int, signals bool) *session {
 	return s
 }
 
+// signalTrafficSession: 2-4 Execute calls on harness goroutines of their own, most of them fed signals (1-3 each) through
+// signalsToStep while the other calls start, finish and the client is closed - over a transport whose Write is not atomic for
+// concurrent callers (wfrag: every Write of the client reaches the stream in small chunks, with a scheduling point in
+// between).  The client has ONE encoder for work starts, signals and client-done: whatever the interleaving, the peer must
+// decode exactly the messages that were sent.
+func signalTrafficSession(r *Rng, coarse bool) *session {
+	n := 2 + r.Intn(3)
+	s := &session{wfail: -1, faultN: -1, ordered: false}
+	s.frag = []int{0, 3, 16}[r.Intn(3)]
+	s.wfrag = []int{1, 2, 3, 5, 8, 13}[r.Intn(6)]
+	if coarse { // delay-bounded exploration re-runs the session once per step: fewer, larger chunks
+		s.wfrag = []int{9, 14, 20}[r.Intn(3)]
+	}
+	s.close = r.Intn(3) > 0
+	for i := 0; i < n; i++ {
+		c := call{run: runNames[i], lane: i, sigTo: -1}
+		if i == 0 || r.Intn(3) > 0 {
+			c.sigTo = 1 + r.Intn(3)
+			c.closeCh = r.Intn(2) == 0
+		}
+		c.sigFrom = r.Intn(4) == 0
+		s.calls = append(s.calls, c)
+		if c.sigFrom && r.Intn(2) == 0 {
+			s.script = append(s.script, pmsg{c.run, "signal"})
+		}
+		term := "done"
+		if r.Intn(5) == 0 {
+			term = "stepfatal"
+		}
+		s.script = append(s.script, pmsg{c.run, term})
+	}
+	return s
+}
+
 func choicesNode(r *Rng, n int) *sx.Node {
 	l := sx.L(sx.A("choices"))
 	for i := 0; i < n; i++ {
@@ -231,6 +265,30 @@ func genCases(kind, tier string, seed uint64, outPath string) {
 				emit("atpexplore", s, sx.L(sx.A("delay2"), sx.I(40), sx.I(int64(r.Intn(1<<30)))))
 			}
 		}
+	case "c05m": // C05: MODEL schedules (coq/ATP/Client.v) forced on the real client - sessions in which the peer sends NON-TERMINAL
+		// messages that carry a run id (a non-fatal error report = notice, emitted signals, unknown message ids) before the run's
+		// terminal message: the model routes by run id and message class (C05_client_routes_by_run_id), the result of every
+		// Execute is compared with the model's
+		nSess := 36
+		if tier == "thorough" {
+			nSess = 600
+		}
+		for i := 0; i < nSess; i++ {
+			n := 1 + r.Intn(3)
+			s := healthySession(r, n, true)
+			// every run gets at least one notice in front of its terminal message
+			var script []pmsg
+			for _, m := range s.script {
+				if isTerminalKind(m.kind) {
+					for k := 1 + r.Intn(2); k > 0; k-- {
+						script = append(script, pmsg{m.run, "notice"})
+					}
+				}
+				script = append(script, m)
+			}
+			s.script = script
+			emit("atpclient", s, choicesNode(r, 80+50*n))
+		}
 	case "c05x": // C05: results are never lost, duplicated or delivered to another call, under controlled interleavings
 		nSess := 6
 		if tier == "thorough" {
@@ -249,6 +307,25 @@ func genCases(kind, tier string, seed uint64, outPath string) {
 				emit("atpexplore", s, sx.L(sx.A("random"), sx.I(int64(r.Intn(1<<30))), sx.I(20)))
 			} else {
 				emit("atpexplore", s, sx.L(sx.A("delay2"), sx.I(40), sx.I(int64(r.Intn(1<<30)))))
+			}
+		}
+		// signal traffic to running steps while other calls start, over a transport whose Write is not atomic
+		{
+			two := &session{wfail: -1, faultN: -1, close: true, wfrag: 12, calls: []call{{run: "a", sigTo: 2}, {run: "b", lane: 1, sigTo: -1}},
+				script: []pmsg{{"a", "done"}, {"b", "done"}}}
+			emit("atpexplore", two, sx.L(sx.A("delay2"), sx.I(150), sx.I(int64(r.Intn(1<<30)))))
+			emit("atpexplore", two, sx.L(sx.A("random"), sx.I(int64(r.Intn(1<<30))), sx.I(20)))
+		}
+		nSig := 8
+		if tier == "thorough" {
+			nSig = 80
+		}
+		for i := 0; i < nSig; i++ {
+			s := signalTrafficSession(r, i%2 == 1)
+			if i%2 == 0 {
+				emit("atpexplore", s, sx.L(sx.A("random"), sx.I(int64(r.Intn(1<<30))), sx.I(16)))
+			} else {
+				emit("atpexplore", s, sx.L(sx.A("delay2"), sx.I(30), sx.I(int64(r.Intn(1<<30)))))
 			}
 		}
 	default:
